@@ -37,7 +37,7 @@ PLAIN_ESC_VALS = PLAIN_VALS + ["50%25", "a%3Bb", "x%2Cy", "100%"]  # GTF/GFF2 ha
 
 def budget(tier):
     if tier == "quick":
-        return {"runs": 2400, "wall": 50, "chunk": 8}
+        return {"runs": 2400, "wall": 120, "chunk": 8}
     return {"runs": 80000, "wall": 1500, "chunk": 8}
 
 
